@@ -5,6 +5,19 @@ use crate::query::Query;
 
 impl Query for Segment {
     fn process<'a, T: Queryable>(&self, step: State<'a, T>) -> State<'a, T> {
+        #[cfg(jsonpath_rust_verif)]
+        if crate::verif::active() && !crate::verif::reenter(crate::verif::SEG) {
+            let (nest, k) = crate::verif::seg_enter();
+            let inp = crate::verif::addrs(&step.data);
+            crate::verif::set_reenter(crate::verif::SEG);
+            let out = self.process(step);
+            crate::verif::seg_exit();
+            if nest == 1 {
+                crate::verif::emit(serde_json::json!({"ev": "seg", "depth": crate::verif::depth(), "k": k,
+                    "inp": inp, "out": crate::verif::addrs(&out.data)}));
+            }
+            return out;
+        }
         match self {
             Segment::Descendant(segment) => segment.process(step.flat_map(process_descendant)),
             Segment::Selector(selector) => selector.process(step),
